@@ -159,6 +159,7 @@ class Builder:
         self.loops: List[Tuple[Node, Node]] = []  # (continue target, break target)
         self.handlers: List[List[Tuple[Optional[ast.expr], Node]]] = []  # innermost last
         self.finals: List[Node] = []
+        self.caught: List[Optional[ast.expr]] = []  # type of the handler whose body is being built, innermost last
         self.exc_matcher = exc_matcher or (lambda raised, caught: caught is None)
 
     def build(self) -> CFG:
@@ -180,6 +181,18 @@ class Builder:
 
     def _raise_target(self, raised: Optional[ast.expr]) -> List[Node]:
         """Where a raise of *raised* goes: the matching handler or raise_exit."""
+        if raised is None and self.caught and self.caught[-1] is not None and not isinstance(self.caught[-1], ast.Tuple):
+            # bare re-raise inside `except T`: an instance of T or of a subclass of it travels on; a handler for a
+            # superclass of T takes it for sure, a handler for a subclass of T may
+            held = self.caught[-1]
+            targets = []
+            for frame in reversed(self.handlers):
+                for caught, node in frame:
+                    if self.exc_matcher(held, caught):
+                        return targets + [node]
+                    if caught is not None and not isinstance(caught, ast.Tuple) and self.exc_matcher(caught, held):
+                        targets.append(node)
+            return targets + [self.cfg.raise_exit]
         if raised is None:
             # bare re-raise / unknown exception: any enclosing handler may match
             targets: List[Node] = []
@@ -297,7 +310,9 @@ class Builder:
         for h, hn in zip(stmt.handlers, handler_nodes):
             # implicit: any statement of the try body may raise into the handler
             cfg.edge(try_entry, hn, "exc")
+            self.caught.append(h.type)
             outs += self._block(h.body, [hn])
+            self.caught.pop()
         if final_entry is not None:
             self.finals.pop()
             self._connect(outs, final_entry)
